@@ -100,29 +100,47 @@ class WrappedField:
             result = get_type_hints(self.clazz.clazz)[self.field.name]
             return result
         except NameError as e:
-            # First try to find the class in the class diagram
-            potential_matching_classes = [
-                cls.clazz
-                for cls in self.clazz._class_diagram.wrapped_classes
-                if cls.clazz.__name__ == e.name
-            ]
-            if len(potential_matching_classes) > 0:
-                found_clazz = potential_matching_classes[0]
-            else:
-                # second try to find it in the modules
-                found_clazz = manually_search_for_class_name(e.name)
-
             # Build a complete namespace with ALL classes from the class diagram
             local_namespace = {
                 cls.clazz.__name__: cls.clazz
                 for cls in self.clazz._class_diagram.wrapped_classes
             }
-            # Also add the manually found class (in case it's not in the diagram)
-            local_namespace[e.name] = found_clazz
-            result = get_type_hints(self.clazz.clazz, localns=local_namespace)[
-                self.field.name
-            ]
-            return result
+            # The class may refer to several names that cannot be resolved from its module
+            # (e.g., imports under TYPE_CHECKING), so look the names up one after the other.
+            unresolved_name = e.name
+            resolved_names = set()
+            while True:
+                resolved_names.add(unresolved_name)
+                local_namespace[unresolved_name] = self._find_class_by_name(
+                    unresolved_name
+                )
+                try:
+                    result = get_type_hints(
+                        self.clazz.clazz, localns=local_namespace
+                    )[self.field.name]
+                    return result
+                except NameError as next_error:
+                    if next_error.name in resolved_names:
+                        raise
+                    unresolved_name = next_error.name
+
+    def _find_class_by_name(self, name: str) -> Type:
+        """
+        Find a class that cannot be resolved from the module of the wrapped class by its name.
+
+        :param name: The name of the class.
+        :return: The class with that name from the class diagram if there is one, else from the loaded modules.
+        """
+        # First try to find the class in the class diagram
+        potential_matching_classes = [
+            cls.clazz
+            for cls in self.clazz._class_diagram.wrapped_classes
+            if cls.clazz.__name__ == name
+        ]
+        if len(potential_matching_classes) > 0:
+            return potential_matching_classes[0]
+        # second try to find it in the modules
+        return manually_search_for_class_name(name)
 
     @cached_property
     def is_builtin_type(self) -> bool:
